@@ -2,15 +2,53 @@
 
 package timers
 
-import "fmt"
+import (
+	"fmt"
+	"reflect"
+	"strings"
+)
 
-// VerifDump renders the complete internal state (used as the explicit-state search key).
+// VerifDump renders the complete internal state (used as the explicit-state search key). It walks
+// the structures by reflection (every integer and boolean field of EpochTimers and of its delta
+// handlers, in declaration order), so that it does not depend on field names.
 func (et *EpochTimers) VerifDump() string {
 	et.m.Lock()
 	defer et.m.Unlock()
-	s := fmt.Sprintf("e:%d/%v", et.nextTickAt, et.done)
-	for _, dh := range et.deltaHandlers {
-		s += fmt.Sprintf(" d:%d/%v", dh.nextTickAt, dh.done)
+	var b strings.Builder
+	verifDump(&b, reflect.ValueOf(et).Elem(), 0)
+	return b.String()
+}
+
+func verifDump(b *strings.Builder, v reflect.Value, depth int) {
+	if depth > 4 {
+		return
 	}
-	return s
+	switch v.Kind() {
+	case reflect.Bool:
+		fmt.Fprintf(b, "%v ", v.Bool())
+	case reflect.Int, reflect.Int8, reflect.Int16, reflect.Int32, reflect.Int64:
+		fmt.Fprintf(b, "%d ", v.Int())
+	case reflect.Uint, reflect.Uint8, reflect.Uint16, reflect.Uint32, reflect.Uint64:
+		fmt.Fprintf(b, "%d ", v.Uint())
+	case reflect.Pointer:
+		if !v.IsNil() {
+			verifDump(b, v.Elem(), depth+1)
+		}
+	case reflect.Slice, reflect.Array:
+		b.WriteString("[")
+		for i := 0; i < v.Len(); i++ {
+			verifDump(b, v.Index(i), depth+1)
+			b.WriteString("; ")
+		}
+		b.WriteString("]")
+	case reflect.Struct:
+		if strings.HasPrefix(v.Type().PkgPath(), "sync") {
+			return // locks are not state
+		}
+		b.WriteString("{")
+		for i := 0; i < v.NumField(); i++ {
+			verifDump(b, v.Field(i), depth+1)
+		}
+		b.WriteString("}")
+	}
 }
